@@ -25,6 +25,9 @@ func YamlToJson(data []byte) ([]byte, error) {
 
 func toStringKeyMap(v any) any {
 	switch v := v.(type) {
+	case nil:
+		// YAML 的 null / ~ / 空值与 JSON 的 null 含义相同，不能经 Repr 变成空字符串 ""
+		return nil
 	case []any:
 		return convertSlice(v)
 	case map[any]any:
